@@ -147,13 +147,18 @@ def parse_tlc(text):
         sub.setdefault(m.group(3), []).append((int(m.group(1)), int(m.group(2)), int(m.group(4))))
     for mod, lines in sub.items():
         for name, (a, b) in action_ranges(mod).items():
-            inside = [x for x in lines if a < x[0] < b]
+            inside = [x for x in lines if a <= x[0] < b]
             if not inside:
                 continue
-            mincol = min(x[1] for x in inside)
-            top = [x for x in inside if x[1] == mincol]
-            last = max(x[0] for x in top)
-            cnt = max(x[2] for x in top if x[0] == last)
+            if len(set(x[0] for x in inside)) == 1:
+                # a one-line definition: its last conjunct is the right-most expression
+                cnt = max(inside, key=lambda x: x[1])[2]
+            else:
+                body = [x for x in inside if x[0] > a] or inside
+                mincol = min(x[1] for x in body)
+                top = [x for x in body if x[1] == mincol]
+                last = max(x[0] for x in top)
+                cnt = max(x[2] for x in top if x[0] == last)
             r["coverage"][name] = max(r["coverage"].get(name, 0), cnt)
     return r
 
